@@ -91,9 +91,23 @@ def _unary(k, op, order):
     return bdd.unary_task(k, op, order)
 
 
-def _task(kind, k, op, order):
-    r = (_pair if kind == 'pair' else _unary)(k, op, order)
-    return r
+def _task(kind, k, op, order, fixed=None):
+    if kind == 'pair':
+        return bdd.pair_task(k, op, order, fixed)
+    return bdd.unary_task(k, op, order)
+
+
+def literal_tables(order):
+    """truth tables (along `order`) of the literals v, ~v and the constants"""
+    k = len(order)
+    out = {}
+    for vi, v in enumerate(order):
+        t = [bool((i >> (k - 1 - vi)) & 1) for i in range(1 << k)]
+        out[v] = t
+        out['~' + v] = [not x for x in t]
+    out['0'] = [False] * (1 << k)
+    out['1'] = [True] * (1 << k)
+    return out
 
 
 def bdd_tasks(tier):
@@ -105,6 +119,13 @@ def bdd_tasks(tier):
         t.append(('pair', 3, 'none', order))
         for op in ('invert', 'restrict', 'variables'):
             t.append(('unary', 3, op, order))
+    # 3 variables, binary operations with ONE operand a literal/constant and the other arbitrary (all 256 functions), both sides
+    for order in (['a', 'b', 'c'], ['c', 'a', 'b']):
+        lits = literal_tables(order)
+        for name, tab in lits.items():
+            for side in ('f', 'g'):
+                for op in (('and', 'or', 'xor') if order == ['a', 'b', 'c'] else ('and',)):
+                    t.append(('pair', 3, op, order, {'%s%d' % (side, i): b for i, b in enumerate(tab)}))
     if tier == 'thorough':
         for op in ('and', 'or', 'xor'):
             t.append(('pair', 3, op, ['a', 'b', 'c']))
@@ -119,8 +140,9 @@ def run_bdd(rep, tier, pid):
     tasks = bdd_tasks(tier)
     done = 0
     for t, st, r, secs in pmap(_task, tasks, workers=6 if tier == 'thorough' else 16):
-        kind, k, op, order = t
-        key = 'bdd %s k=%d op=%s order=%s' % (kind, k, op, ''.join(order))
+        kind, k, op, order = t[:4]
+        fx = t[4] if len(t) > 4 else None
+        key = 'bdd %s k=%d op=%s order=%s%s' % (kind, k, op, ''.join(order), (' %s pinned to %s' % (sorted(fx)[0][0], ''.join('1' if fx[n_] else '0' for n_ in sorted(fx, key=lambda z: int(z[1:]))))) if fx else '')
         if st == 'ok':
             for f_ in ('solver_s', 'gates', 'queries', 'encode_s'):
                 r.setdefault(f_, 0)
@@ -128,7 +150,7 @@ def run_bdd(rep, tier, pid):
                 if kind == 'pair' else 'all %d-variable functions: %s correct on every assignment; every live node reduced/ordered/unique' % (k, op))
         absorb(rep, t, st, r, secs, key, bdd_replay(pid), desc)
         if st == 'ok' and r['verdict'] == 'unsat':
-            done += (2 ** (2 ** k)) ** (2 if kind == 'pair' else 1)
+            done += (2 ** (2 ** k)) ** (1 if (kind != 'pair' or fx) else 2)
     rep.cov['states'] = done
     rep.cov['transitions'] = done
     rep.cov['states_meaning'] = 'function pairs / functions covered by unsat verdicts (each merged run covers all 2^(2^k) functions per operand)'
@@ -157,11 +179,16 @@ def run_c17(rep, tier):
     native_errors(rep, 'C17')
 
 
-def gc_stress(rep, steps):
-    """native cross-check only: random build/combine/drop/gc sequences; canonicity against truth tables"""
-    from pyModelChecking.BDD import OBDD, BDDNode
-    from pyModelChecking.BDD.BDD import BDDNonTerminalNode
-    r = rng('gc')
+GC_SRC = '''
+import gc, itertools, random
+from pyModelChecking.BDD import OBDD, BDDNode
+from pyModelChecking.BDD.BDD import BDDNonTerminalNode
+
+
+def stress(seed, steps):
+    """random build / combine / drop / gc.collect() history over a pool of OBDDs; at checkpoints: identical root <=> equal truth table,
+    and no two live non-terminals share (var, low, high)"""
+    r = random.Random(seed)
     order = ['a', 'b', 'c']
     asgs = [dict(zip(order, bits)) for bits in itertools.product([False, True], repeat=3)]
 
@@ -169,36 +196,99 @@ def gc_stress(rep, steps):
         while isinstance(node, BDDNonTerminalNode):
             node = node.high if asg[node.var] else node.low
         return bool(node.value)
-    pool = []
-    bad = 0
+    pool, hist, bad = [], [], []
     for i in range(steps):
         c = r.random()
         if c < 0.4 or len(pool) < 2:
-            e = r.choice(['a', 'b', 'c', '~a', 'a & b', 'b | c', '~(a & c)', '(a | b) & ~c', '0', '1'])
-            pool.append(OBDD(e, order))
+            e = r.choice(['a', 'b', 'c', '~a', 'a & b', 'b | c', '~(a & c)', '(a | b) & ~c', 'a & ~b', '0', '1'])
+            pool.append(OBDD(e, order)); hist.append('build ' + e)
         elif c < 0.7:
             x, y = r.choice(pool), r.choice(pool)
-            pool.append(r.choice([lambda: x & y, lambda: x | y, lambda: x ^ y, lambda: ~x, lambda: x.restrict(r.choice(order), r.choice([0, 1]))])())
+            k = r.randrange(5)
+            pool.append([lambda: x & y, lambda: x | y, lambda: x ^ y, lambda: ~x, lambda: x.restrict(r.choice(order), r.choice([0, 1]))][k]())
+            hist.append(['and', 'or', 'xor', 'not', 'restrict'][k])
         elif c < 0.9:
-            pool.pop(r.randrange(len(pool)))
+            pool.pop(r.randrange(len(pool))); hist.append('drop')
         else:
-            gc.collect()
-        if i % 25 == 0 and len(pool) >= 2:
-            x, y = r.choice(pool), r.choice(pool)
-            tx, ty = [ev(x.root, a) for a in asgs], [ev(y.root, a) for a in asgs]
-            if (x.root is y.root) != (tx == ty):
-                bad += 1
+            gc.collect(); hist.append('gc')
+        if i %% 10 == 0 and len(pool) >= 2:
+            for x in pool:
+                for y in pool:
+                    tx, ty = [ev(x.root, a) for a in asgs], [ev(y.root, a) for a in asgs]
+                    if (x.root is y.root) != (tx == ty) or (x == y) != (tx == ty):
+                        bad.append('step %%d: two diagrams with %%s tables have identical root=%%s, ==: %%s (history tail %%s)' %% (i, 'equal' if tx == ty else 'different', x.root is y.root, x == y, hist[-6:]))
+                        return bad
             seen = {}
             for nd in BDDNode.nodes():
                 if isinstance(nd, BDDNonTerminalNode):
                     k = (nd.var, id(nd.low), id(nd.high))
-                    if k in seen:
-                        bad += 1
+                    if k in seen and seen[k] is not nd:
+                        bad.append('step %%d: two live nodes share (var, low, high) (history tail %%s)' %% (i, hist[-6:]))
+                        return bad
                     seen[k] = nd
-    rep.cov['traces_validated_against_impl'] += steps
-    rep.cov['native_gc_history_steps'] = steps
-    if bad:
-        rep.inconclusive('native build/drop/gc stress: %d canonicity problems (not decided by the solver; investigate)' % bad)
+    return bad
+
+
+def scripted():
+    """the complement of a small function reached by two routes, the first result kept alive while the second is computed;
+    with and without a previously computed, dropped and collected complement"""
+    order = ['a', 'b', 'c']
+    exprs = ['a', '~b', 'a & b', 'a & ~b', 'a | b', '~a | c', '(a & b) | c', 'a & (b | c)', '(a | b) & ~c', '~(a & b & c)', 'b & ~c', '(a & ~b) | (~a & b)', 'a | (b & ~c)']
+    one = lambda: OBDD('1', order)
+    routes = [('~x', lambda x: ~x), ('x ^ 1', lambda x: x ^ one()), ('~(x & x)', lambda x: ~(x & x)), ('(x ^ 1) | (x ^ 1)', lambda x: (x ^ one()) | (x ^ one())),
+              ('~~~x', lambda x: ~(~(~x))), ('1 ^ x', lambda x: one() ^ x)]
+    bad, n = [], 0
+    for e in exprs:
+        for pre in (False, True):
+            for (n1, r1) in routes:
+                for (n2, r2) in routes:
+                    if n1 == n2:
+                        continue
+                    n += 1
+                    x = OBDD(e, order)
+                    if pre:
+                        t = ~x
+                        del t
+                        gc.collect()
+                    y = r1(x)
+                    z = r2(x)
+                    if not (y == z) or y.root is not z.root:
+                        bad.append('not(%%s)%%s reached as %%r (kept alive) and then as %%r: different roots (== %%s)' %% (e, ' [after a dropped and collected ~x]' if pre else '', n1, n2, y == z))
+                        return bad, n
+                    del x, y, z
+                    gc.collect()
+    return bad, n
+'''
+
+
+def gc_stress(rep, steps):
+    """native exploration of creation/drop/collect histories (enumeration, seeded); a failure is replayed in a fresh interpreter"""
+    from .common import SEED
+    ns = {}
+    exec(GC_SRC % (), ns)
+    problems = []
+    seeds = ['%d/gc/%d' % (SEED, j) for j in range(25 if steps <= 300 else 300)]
+    for sd in seeds:
+        bad = ns['stress'](sd, steps)
+        if bad:
+            problems.append((sd, bad[0]))
+    # scripted histories: the same function reached by different routes, with intermediate results dropped and collected in between
+    sbad = ns['scripted']()
+    rep.cov['traces_validated_against_impl'] += sbad[1]
+    if sbad[0]:
+        problems.append(('scripted', sbad[0][0]))
+    rep.cov['traces_validated_against_impl'] += steps * len(seeds)
+    rep.cov['native_gc_histories'] = dict(histories=len(seeds), steps_each=steps, note='exploration (seeded enumeration of build/combine/drop/gc histories), not a solver verdict')
+    rep.obligation('native creation/drop/collect histories (%d x %d steps)' % (len(seeds), steps), 'unsat' if not problems else 'sat', 0, 0,
+                   dict(exploration='random histories over a pool of OBDDs with gc.collect()', histories=len(seeds), steps=steps, problems=[p[1] for p in problems[:2]]))
+    for sd, msg in problems[:3]:
+        body = GC_SRC % () + ('\nbad = stress(%r, %d)\n' % (sd, steps) if sd != 'scripted' else '\nbad = scripted()[0]\n') + 'print(bad)\nif bad:\n    print("VIOLATION of C16:", bad[0]); sys.exit(1)\nprint("no violation on this input")\n'
+        path = write_replay('C16', body)
+        ok, out = run_replay(path)
+        if ok:
+            rep.violation('history seed %s: %s' % (sd, msg), path)
+        else:
+            rep.inconclusive('native history %s failed in-process but not in a fresh interpreter: %s' % (sd, msg))
 
 
 def native_errors(rep, pid):
